@@ -8,6 +8,7 @@ from pathlib import Path
 from mc.core import UnitResult
 
 ID = "C18"
+PARTS = ['bool', 'disable_all', 'error-case', 'int', 'list']      # outcome classes every run must produce (guards against a part of the exploration silently not running)
 RULE = ("state = a stack of 1-3 config files chained by extend_config (written first or last in the table), each setting or not, per scope (top, override a, override a.b), "
         "one option (boolean error code / integer / list / disable_all + explicit enable), plus a command-line instance, queried for modules (), a, a.b, a.b.c, x; every "
         "combination is enumerated; real: Options.from_option_list(cmdline, main file).for_module(m).get_value_for / is_error_code_enabled; oracle: the documented precedence "
